@@ -69,3 +69,12 @@ def flagset(names):
     m = {'P2SH': SE.SCRIPT_VERIFY_P2SH, 'NULLDUMMY': SE.SCRIPT_VERIFY_NULLDUMMY, 'CLEANSTACK': SE.SCRIPT_VERIFY_CLEANSTACK,
          'DISCOURAGE_UPGRADABLE_NOPS': SE.SCRIPT_VERIFY_DISCOURAGE_UPGRADABLE_NOPS}
     return {m[n] if n in m else SE.SCRIPT_VERIFY_FLAGS_BY_NAME[n] for n in names}
+
+
+def spellings(b, with_script=False):
+    """the same byte string as the API's callers may hold it: bytes, bytearray, memoryview (and a CScript, which is a bytes
+    subclass with its own + and iteration)"""
+    out = [('bytes', bytes(b)), ('bytearray', bytearray(b)), ('memoryview', memoryview(bytes(b)))]
+    if with_script:
+        out.append(('cscript', CScript(bytes(b))))
+    return out
